@@ -32,6 +32,8 @@ VARIANTS = {
     'asan': ['-O1', '-g', '-fno-omit-frame-pointer', '-fsanitize=address,undefined', '-fno-sanitize-recover=all'],
     'plain': ['-O2', '-g'],
     'cov': ['-O0', '-g', '--coverage'],
+    # clang + libFuzzer (gcc has no -fsanitize=fuzzer); object-size is a known false alarm on empty classes with clang 14
+    'fuzz': ['-O1', '-g', '-fno-omit-frame-pointer', '-fsanitize=fuzzer-no-link,address,undefined', '-fno-sanitize-recover=all', '-fno-sanitize=object-size,vptr'],
 }
 
 SRC_EXT = ('.cpp', '.h', '.c', '.hpp')
@@ -108,17 +110,18 @@ def build(variant='asan', hooks=True, quiet=False):
         shutil.copy(src if os.path.exists(src) else os.path.join(fb, 'libsecp256k1-config.h'),
                     os.path.join(cfgdir, 'libsecp256k1-config.h'))
         inc = ['-I' + cfgdir, '-I' + os.path.join(cfgdir, 'config'), '-I' + r, '-I' + os.path.join(r, 'secp256k1', 'include')]
-        cxx = ['g++', '-std=c++17', '-w', '-DHAVE_CONFIG_H'] + flags + inc
-        cc = ['gcc', '-w', '-DHAVE_CONFIG_H'] + flags
+        fuzz = variant == 'fuzz'
+        cxx = ['clang++' if fuzz else 'g++', '-std=gnu++17' if fuzz else '-std=c++17', '-w', '-DHAVE_CONFIG_H'] + flags + inc
+        cc = ['gcc', '-w', '-DHAVE_CONFIG_H'] + ([] if fuzz else flags)
         jobs = []
         objs = {}
 
         def obj(name):
             return os.path.join(out, name.replace('/', '_') + '.o')
 
-        for s in LIBBITCOIN + COMMON_TOOL + ['btcdeb.cpp', 'btcc.cpp', 'tap.cpp']:
+        for s in LIBBITCOIN + COMMON_TOOL + ([] if fuzz else ['btcdeb.cpp', 'btcc.cpp', 'tap.cpp']):
             jobs.append(cxx + ['-c', os.path.join(r, s), '-o', obj(s)])
-        for s in ('vharness.cpp',):
+        for s in (('vfuzz.cpp',) if fuzz else ('vharness.cpp',)):
             jobs.append(cxx + ['-I' + os.path.join(VERIF, 'harness'), '-c', os.path.join(VERIF, 'harness', s), '-o', obj('H_' + s)])
         for s in SECP:
             jobs.append(cc + ['-O2', '-fomit-frame-pointer', '-I' + cfgdir, '-I' + os.path.join(r, 'secp256k1'), '-I' + os.path.join(r, 'secp256k1', 'src'),
@@ -132,12 +135,15 @@ def build(variant='asan', hooks=True, quiet=False):
         lib = [obj(s) for s in LIBBITCOIN] + [obj(s) for s in SECP]
         tool = [obj(s) for s in COMMON_TOOL] + [obj('kerl/kerl.c')]
         link = ['g++'] + flags
-        links = [
+        if fuzz:
+            links = [['clang++', '-g', '-fsanitize=fuzzer,address,undefined', '-Wl,--wrap=exit', '-o', os.path.join(out, 'vfuzz'), obj('H_vfuzz.cpp')] + tool + lib + ['-lreadline', '-lpthread']]
+        else:
+          links = [
             link + ['-o', os.path.join(out, 'btcdeb'), obj('btcdeb.cpp')] + tool + lib + ['-lreadline'],
             link + ['-o', os.path.join(out, 'tap'), obj('tap.cpp')] + tool + lib + ['-lreadline'],
             link + ['-o', os.path.join(out, 'btcc'), obj('btcc.cpp')] + lib,
             link + ['-o', os.path.join(out, 'vharness'), obj('H_vharness.cpp')] + tool + lib + ['-lreadline', '-lpthread'],
-        ]
+          ]
         with ThreadPoolExecutor(max_workers=4) as ex:
             futs = [ex.submit(_run, j, r, log) for j in links]
             for f in futs:
